@@ -5,6 +5,7 @@ package mc
 import (
 	"encoding/json"
 	"fmt"
+	"io"
 	"os"
 	"os/exec"
 	"runtime"
@@ -355,6 +356,24 @@ func Main(id, tier string) {
 	if unconfirmed > 0 {
 		c.SetExtra("violations_not_reproducible_dropped", unconfirmed)
 	}
+	for _, t := range workerCrashes {
+		c.Exhaustive = false
+		first := t
+		if i := strings.Index(t, "fatal error: "); i >= 0 {
+			first = t[i:]
+		} else if i := strings.Index(t, "panic: "); i >= 0 {
+			first = t[i:]
+		}
+		line := firstLine(first)
+		if len(first) > 3000 {
+			first = first[:3000]
+		}
+		if !embed {
+			c.Violation(id+"/crash "+line, "the code under test crashed an explorer worker (what that worker had covered is lost):\n"+first, "panic", map[string]string{"check": id, "tier": tier})
+		} else {
+			confirmed = append(confirmed, explore.Found{Violation: id + "/crash " + line, Msg: "the code under test crashed an explorer worker:\n" + first})
+		}
+	}
 	if embed {
 		total.Found = nil
 		js, _ := json.Marshal(Embedded{Stats: total, Scenarios: len(scs), BoundDone: minDone, Confirmed: confirmed})
@@ -366,6 +385,9 @@ func Main(id, tier string) {
 	}
 	c.Finish()
 }
+
+// workerCrashes collects the stderr of workers that the code under test brought down.
+var workerCrashes []string
 
 // runWorkers shards the scenarios of a check over worker processes and merges their statistics.
 func runWorkers(id, tier string, n int, promoted []string) (*explore.Stats, int) {
@@ -379,7 +401,8 @@ func runWorkers(id, tier string, n int, promoted []string) (*explore.Stats, int)
 			defer wg.Done()
 			cmd := exec.Command(os.Args[0], "worker", id, tier, strconv.Itoa(i), strconv.Itoa(n))
 			cmd.Env = append(os.Environ(), "GOMAXPROCS=2", "VERIF_PROMOTE="+strings.Join(promoted, ","))
-			cmd.Stderr = os.Stderr
+			var errText strings.Builder
+			cmd.Stderr = io.MultiWriter(os.Stderr, &errText)
 			out, err := cmd.Output()
 			var st *explore.Stats
 			for _, line := range strings.Split(string(out), "\n") {
@@ -391,6 +414,14 @@ func runWorkers(id, tier string, n int, promoted []string) (*explore.Stats, int)
 				}
 			}
 			if err != nil || st == nil {
+				// a fatal runtime error of the code under test (concurrent map writes, all goroutines asleep,
+				// a panic outside the scheduler's threads) kills the worker: a finding, not a harness error
+				if t := errText.String(); !strings.Contains(t, "HARNESS-ERROR") && strings.Contains(t, "github.com/herohde/morlock/") && (strings.Contains(t, "fatal error: ") || strings.Contains(t, "panic: ")) {
+					mu.Lock()
+					workerCrashes = append(workerCrashes, t)
+					mu.Unlock()
+					return
+				}
 				fmt.Fprintf(os.Stderr, "HARNESS-ERROR: worker %d of %s failed: %v\n%s\n", i, id, err, lastLines(string(out), 20))
 				os.Exit(2)
 			}
@@ -441,6 +472,14 @@ func Replay(path string) {
 	if err != nil {
 		fmt.Fprintln(os.Stderr, "HARNESS-ERROR:", err)
 		os.Exit(2)
+	}
+	if r.Kind == "panic" {
+		// a worker was brought down by the code under test: replaying is running that check again
+		var d struct{ Check, Tier string }
+		_ = json.Unmarshal(r.Data, &d)
+		os.Setenv("VERIF_OUT", os.TempDir())
+		Main(d.Check, d.Tier)
+		return
 	}
 	var f explore.Found
 	if err := json.Unmarshal(r.Data, &f); err != nil {
